@@ -6,7 +6,7 @@ PATCH="$1"; ID="$2"; TIER="${3:-quick}"
 D=/dev/shm/mutrepo-$$
 rsync -a --exclude .git /repo/ "$D/"
 trap 'rm -rf "$D"' EXIT
-if [ "$PATCH" != "-" ]; then (cd "$D" && patch -p1 --quiet < "$PATCH"); fi
+if [ "$PATCH" != "-" ]; then (cd "$D" && git apply "$PATCH"); fi
 if [ -n "$MUT_SED" ]; then (cd "$D" && eval "$MUT_SED"); fi
 cd "$(dirname "$0")/.."
 VERIF_REPO="$D" ./check "$ID" --tier "$TIER" 2>&1 | grep -v "^\s*$" | tail -${MUT_TAIL:-12}
